@@ -221,15 +221,16 @@ theorem plan_st (s : Img) (st2 : Store) (op : Op) (now : Int)
   | del sel z c t =>
     simp only [plan, deleteObjectsPlan]
     have hr : resolveTime { s with st := st2 } t now = resolveTime s t now := rfl
-    rcases Sel.noErr_or_errOf sel with hs | ⟨e, he⟩
-    · simp only [deleteLoop_closed ph sel hs, List.nil_append, Bool.false_or, hr]
+    cases hfe : sel.firstErr ph s.rds with
+    | none =>
+      simp only [deleteLoop_closed ph sel z _ _ _ _ _ hfe, List.nil_append, Bool.false_or, hr]
       cases hany : s.rds.any (hit ph sel) with
       | false => rfl
       | true =>
         simp only [Bool.not_true, Bool.false_eq_true, ↓reduceIte, hlen sel z]
         rfl
-    · simp only [deleteLoop_err ph sel e he]
-      cases s.rds.any (·.used) <;> rfl
+    | some e =>
+      simp only [deleteLoop_err ph sel e z _ _ _ _ _ hfe]
   | setPrim id t =>
     simp only [plan, setPrimPartPlan]
     have hr : resolveTime { s with st := st2 } t now = resolveTime s t now := rfl
